@@ -33,7 +33,6 @@ import (
 	"net/url"
 	"os"
 	"path/filepath"
-	"runtime"
 	"sort"
 	"strings"
 	"sync"
@@ -1088,10 +1087,11 @@ func (w *c19World) produce(b *c19Inst, parts []c19Part, acks int16, rng *rand.Ra
 					fmt.Sprintf("%s answered %s for %s but wrote %d S3 objects for it while the lease key was %s for the whole request", b.name(), c19CodeName(code), pname, o.Writes, o.After)})
 				break
 			}
-			if b.unnoticed {
-				// the broker cannot know that it lost the lease: which error it picks for a request
-				// that fails anyway is not judged
-				o.Verdict = "ok: nothing written (code not judged in the expired-unnoticed window)"
+			if b.unnoticed || w.foreignDel[key] == b.id {
+				// the broker cannot know that it lost the lease (expired but not told, or its key was
+				// deleted by another broker's stale Release): which error it picks for a request that
+				// fails anyway is not judged
+				o.Verdict = "ok: nothing written (code not judged: the broker cannot know it lost the lease)"
 				w.r.Count("unnoticed_window_failed_nothing_written", 1)
 				break
 			}
@@ -1218,6 +1218,16 @@ func (w *c19World) refreshTopics() bool {
 	}
 }
 
+// clearVictim: broker id has dropped its belief (in key, or in everything): a
+// later success without the lease is no longer explained by a foreign release.
+func (w *c19World) clearVictim(id, key string) {
+	for k, v := range w.foreignDel {
+		if v == id && (key == "" || k == key) {
+			delete(w.foreignDel, k)
+		}
+	}
+}
+
 // release: PartitionLeaseManager.Release on one partition.
 func (w *c19World) release(b *c19Inst, p c19Part) bool {
 	if _, ok := w.sync(); !ok {
@@ -1225,6 +1235,7 @@ func (w *c19World) release(b *c19Inst, p c19Part) bool {
 	}
 	owned := b.h.leaseManager.Owns(p.Topic, p.P)
 	b.h.leaseManager.Release(p.Topic, p.P)
+	w.clearVictim(b.id, p.key())
 	evs, ok := w.sync()
 	if !ok {
 		return false
@@ -1234,9 +1245,6 @@ func (w *c19World) release(b *c19Inst, p c19Part) bool {
 			// C18's known defect (stale_release_deletes_foreign_key): remember the victim
 			w.foreignDel[e.Key] = e.PrevVal
 			w.r.Count("obs_release_deleted_foreign_key_(C18)", 1)
-		}
-		if !e.Del {
-			delete(w.foreignDel, e.Key)
 		}
 	}
 	d := fmt.Sprintf("Release(%s/%d), broker believed it owned it: %v", w.label(p.Topic), p.P, owned)
@@ -1251,6 +1259,7 @@ func (w *c19World) release(b *c19Inst, p c19Part) bool {
 func (w *c19World) releaseAll(b *c19Inst) bool {
 	b.h.leaseManager.ReleaseAll()
 	b.shut = true
+	w.clearVictim(b.id, "")
 	b.unnoticed = false // Session.Close ends the keep-alive: the manager has dropped everything
 	evs, ok := w.sync()
 	if !ok {
@@ -1279,11 +1288,6 @@ func (w *c19World) expire(b *c19Inst, notice bool) bool {
 	evs, ok := w.sync()
 	if !ok {
 		return false
-	}
-	for _, e := range evs {
-		if !e.Del {
-			delete(w.foreignDel, e.Key)
-		}
 	}
 	d := fmt.Sprintf("server-side expiry of %d lease(s) of this broker; it believed it owned %d partition(s)", len(ids), len(believed))
 	w.steps = append(w.steps, c19Step{N: len(w.steps) + 1, Op: "expire", Broker: b.name(), Detail: d, Events: w.evStrings(evs)})
@@ -1330,6 +1334,7 @@ func (w *c19World) notice(b *c19Inst, believed []c19Part) bool {
 		time.Sleep(200 * time.Microsecond)
 	}
 	b.unnoticed = false
+	w.clearVictim(b.id, "")
 	w.steps = append(w.steps, c19Step{N: len(w.steps) + 1, Op: "notice", Broker: b.name(), Detail: fmt.Sprintf("keep-alive channel of %d expired lease(s) closed; manager no longer claims any of the %d partition(s)", n, len(believed))})
 	w.r.Count("step_notice", 1)
 	return true
@@ -1341,6 +1346,7 @@ func (w *c19World) notice(b *c19Inst, believed []c19Part) bool {
 func (w *c19World) restart(idx int, expireOld bool) bool {
 	old := w.cur[idx]
 	w.stopInst(old)
+	w.clearVictim(old.id, "")
 	ids := old.lapi.liveIDs()
 	if expireOld {
 		for _, id := range ids {
@@ -1701,16 +1707,23 @@ func c19Sig(w *c19World) string {
 
 const c19Rule = "3 real broker handlers (EtcdStore + real PartitionLeaseManager each) over one embedded etcd and one attributing fake S3; PRNG case = directed opening + random tail of steps {produce (1-4 partitions mixing own / foreign / unowned / unknown-topic / beyond-count, acks -1/1/0), Release, ReleaseAll, server-side lease expiry with or without the broker being told, notice, crash+restart with the same broker id, expiry of a dead process's lease}. Ground truth = the etcd lease key read in one transaction immediately before and after each request (value@mod_revision), cross-checked with a WithPrevKV watch log. Oracle per partition entry: code 0 => the key names this broker after the request (violation only if the key was unchanged across the request and named another broker or nobody); key unchanged and naming another broker => NOT_LEADER_OR_FOLLOWER (a retriable other code is re-asked once); key absent and unchanged => kerr-retriable code; lease never held during the request => zero S3 uploads by this broker instance under that partition's prefix (also for acks=0). Non-trivial case = had a request mixing >=2 ownership kinds, a success under a held lease and a foreign-owner rejection."
 
-func TestVerifC19Seq(t *testing.T) {
-	r := verifkit.Start(t, "C19", "seq")
-	defer r.Finish(c19Rule,
+func TestVerifC19(t *testing.T) {
+	r := verifkit.Start(t, "C19", "lease")
+	defer r.Finish(c19Rule+" || CONCURRENT PART: "+c19ConcRule,
 		"'Otherwise' in the statement is read as 'when the broker does not hold the lease': a partition whose lease the broker holds but which fails for another reason (unknown topic with auto-create off, partition beyond the count) is not judged here",
 		"holding the lease = the etcd key /kafscale/partition-leases/<topic>/<p> has this broker's id as value",
 		"if the lease key changed while the request ran and does not name this broker afterwards the entry is not judged",
 		"in the expired-but-unnoticed window only successes and S3 writes are judged, not which error code a failing request carries",
-		"lease TTLs are replaced by 3600 s so that only the harness expires leases; retriable = kerr.IsRetriable(kerr.ErrorForCode(code))")
+		"lease TTLs are replaced by 3600 s so that only the harness expires leases; retriable = kerr.IsRetriable(kerr.ErrorForCode(code))",
+		"concurrent part: lease state changes (Release, expiry, restart) of a broker happen only while none of its requests is in flight, so C18's known same-broker Release/Acquire races are not re-derived here; requests themselves race freely (AcquireAll, singleflight, session creation, partition log init)",
+		"concurrent part: another owner for the whole request => the code only has to be retriable (NOT_LEADER_OR_FOLLOWER is counted); the strict form is judged by the sequential part")
 	env := newC19Env(t, r)
 	defer env.wcancel()
+	c19SeqCases(env, r)
+	c19ConcCases(env, r)
+}
+
+func c19SeqCases(env *c19Env, r *verifkit.Run) {
 	n := r.N(60, 1200)
 	troubles := 0
 	var tSetup, tRun, tClose time.Duration
@@ -1804,34 +1817,27 @@ func (w *c19World) concWitness(rec *c19ConcRec, extra map[string]any) map[string
 
 const c19ConcRule = "same 3 real brokers, but 4 client goroutines keep several produce requests in flight on every broker (1-3 partitions of 3 contended partitions plus an out-of-range one) while a chaos goroutine, holding the target broker's gate exclusively (no request of that broker in flight), does Release / lease expiry+notice / crash+restart. Every request is bracketed by its own etcd barrier transactions (revisions R0,R1) and S3 event-log positions; judged afterwards against the WithPrevKV watch log: code 0 => this broker's id was the lease key's value at some revision in [R0,R1]; never the value in [R0,R1] => kerr-retriable code and no S3 upload by this broker instance under the partition's prefix while the request ran. Non-trivial case = had successes, foreign rejections and at least one partition acknowledged by two different brokers in turn."
 
-func TestVerifC19Conc(t *testing.T) {
-	r := verifkit.Start(t, "C19", "conc")
-	defer r.Finish(c19ConcRule,
-		"lease state changes (Release, expiry, restart) of a broker happen only while none of its requests is in flight, so C18's known same-broker Release/Acquire races are not re-derived here; requests themselves race freely (AcquireAll, singleflight, session creation, partition log init)",
-		"another owner for the whole request => the code only has to be retriable in this leg (NOT_LEADER_OR_FOLLOWER is counted); the strict form is judged by the sequential leg",
-		"retriable = kerr.IsRetriable(kerr.ErrorForCode(code))")
-	env := newC19Env(t, r)
-	defer env.wcancel()
-	n := r.N(10, 200)
+func c19ConcCases(env *c19Env, r *verifkit.Run) {
+	n := r.N(8, 200)
 	troubles := 0
 	for ci := 0; ci < n; ci++ {
-		rng := r.Rand(ci)
-		w := env.newWorld(ci, false, 2, 1)
+		rng := r.Rand(1000000 + ci)
+		w := env.newWorld(1000000+ci, false, 2, 1)
 		if w.trouble == "" {
 			c19ConcCase(w, rng)
 		}
 		w.close()
 		if w.trouble != "" {
 			troubles++
-			r.Inconclusive(fmt.Sprintf("case %d: %s", ci, w.trouble))
+			r.Inconclusive(fmt.Sprintf("conc case %d: %s", ci, w.trouble))
 			r.Evals(1)
 			if troubles >= 3 {
 				break
 			}
 		}
 	}
-	r.Floor("conc_success_owner_in_window", 100)
-	r.Floor("conc_never_owner_rejected", 100)
+	r.Floor("conc_success_owner_in_window", 80)
+	r.Floor("conc_never_owner_rejected", 80)
 }
 
 func c19ConcCase(w *c19World, rng *rand.Rand) {
@@ -1842,7 +1848,7 @@ func c19ConcCase(w *c19World, rng *rand.Rand) {
 	var mu sync.Mutex
 	var recs []*c19ConcRec
 	var wg sync.WaitGroup
-	var inflight, maxInflight atomic.Int64
+	var inflight, maxInflight, completed atomic.Int64
 	seeds := make([]int64, clients+1)
 	for i := range seeds {
 		seeds[i] = rng.Int63()
@@ -1901,6 +1907,7 @@ func c19ConcCase(w *c19World, rng *rand.Rand) {
 				mu.Lock()
 				recs = append(recs, rec)
 				mu.Unlock()
+				completed.Add(1)
 			}
 		}(c)
 	}
@@ -1916,11 +1923,15 @@ func c19ConcCase(w *c19World, rng *rand.Rand) {
 				return
 			default:
 			}
-			// let some requests through between two lease-state changes
-			target := int64(len(recs))
-			_ = target
-			for y := 0; y < 50+lr.Intn(400); y++ {
-				runtime.Gosched()
+			// let some requests through between two lease-state changes (progress-paced, not timed)
+			want := int64((i + 1) * clients * perClient / (nops + 1))
+			for completed.Load() < want {
+				select {
+				case <-stop:
+					return
+				default:
+				}
+				time.Sleep(100 * time.Microsecond)
 			}
 			idx := lr.Intn(3)
 			gates[idx].Lock()
@@ -1954,7 +1965,6 @@ func c19ConcCase(w *c19World, rng *rand.Rand) {
 		w.fail(err.Error())
 		return
 	}
-	w.r.Count("conc_max_requests_in_flight", 0)
 	if m := maxInflight.Load(); m >= 2 {
 		w.r.Count("conc_cases_with_overlapping_requests", 1)
 	}
@@ -2029,7 +2039,7 @@ func c19ConcCase(w *c19World, rng *rand.Rand) {
 		w.r.Count("conc_cases_with_partition_acked_by_two_brokers", 1)
 	}
 	w.r.Count("conc_requests", int64(len(recs)))
-	if w.ci == 0 {
+	if w.ci == 1000000 {
 		var rs []map[string]any
 		for i, rec := range recs {
 			if i >= 6 {
@@ -2037,6 +2047,6 @@ func c19ConcCase(w *c19World, rng *rand.Rand) {
 			}
 			rs = append(rs, w.concWitness(rec, nil))
 		}
-		w.r.Sample(map[string]any{"case": 0, "leg": "conc", "first_requests": rs})
+		w.r.Sample(map[string]any{"case": w.ci, "part": "concurrent", "first_requests": rs})
 	}
 }
